@@ -39,7 +39,8 @@ func ManageCanaryDeployment(client client.Client, daemonset *v1alpha1.ExtendedDa
 		result.Result = requeuePromptly()
 	}
 
-	return result, nil
+	// report the failed clean-up deletions to the caller as well, like ManageDeployment does
+	return result, err
 }
 
 // manageCanaryStatus manages ReplicaSet status in Canary state.
